@@ -23,6 +23,7 @@ import (
 	"net/url"
 	"sort"
 	"strings"
+	gosync "sync"
 	"time"
 
 	"github.com/vektah/gqlparser/v2/ast"
@@ -153,9 +154,15 @@ type recCache[T any] struct {
 
 func (c recCache[T]) Get(ctx context.Context, k string) (T, bool) { return c.inner.Get(ctx, k) }
 func (c recCache[T]) Add(ctx context.Context, k string, v T) {
+	// the recording itself must not race in the free-running -race pass (two requests in
+	// flight); gosync is the real sync package, not the modelled one
+	recMu.Lock()
 	*c.adds = append(*c.adds, k)
+	recMu.Unlock()
 	c.inner.Add(ctx, k, v)
 }
+
+var recMu gosync.Mutex
 
 type server struct {
 	srv   *handler.Server
